@@ -2,6 +2,9 @@
 import glob, json, os, re
 
 
+ALIAS = {}       # callee def path -> canonical (role) name, filled by Facts._role_aliases
+
+
 class CallSite:
     __slots__ = ("body", "bb", "term", "callee")
 
@@ -20,7 +23,10 @@ class CallSite:
 
     @property
     def name(self):
-        return self.callee.get("name", "")
+        # private helpers of the EMF buffer type are known to the rules by the role they play (see Facts._role_aliases): a renamed
+        # `push_raw_str` is still "the raw append"
+        a = ALIAS.get(self.callee.get("def", ""))
+        return a if a is not None else self.callee.get("name", "")
 
     @property
     def trait(self):
@@ -345,6 +351,65 @@ class Facts:
             for s in c["statics"]:
                 s["crate"] = key
                 self.statics.append(s)
+        self._role_aliases()
+
+    def _role_aliases(self):
+        """canonical names for the crate-private vocabulary of the EMF output buffer, decided from what each method does (so that the
+        typestate rules do not depend on what the methods are called)"""
+        EMF = "metrique_writer_format_emf"
+        for (k, _), b in list(self.bodies.items()):
+            if k != EMF or not b.impl:
+                continue
+            adt = (b.impl.get("self_head") or {}).get("adt") or ""
+            tr = b.impl.get("trait") or ""
+            role = None
+            if adt.endswith("buf::PrefixedStringBuf") and not tr:
+                calls = [c.callee.get("def", "") for c in b.calls()]
+                out = b.d.get("output") or ""
+                ins = b.d.get("inputs") or []
+                if ins and re.match(r"&('\w+ )?metrique", ins[0]) and len(ins) == 1:
+                    if out == "bool" and any(d.endswith("String::len") for d in calls):
+                        ALIAS[b.def_] = "is_empty"
+                    elif out.endswith("str"):
+                        ALIAS[b.def_] = "as_str"
+                    continue
+                if not ins or not re.match(r"&('\w+ )?mut ", ins[0]):
+                    continue
+                if any(d.endswith("String::push_str") for d in calls) and any("itoa" in d for d in calls):
+                    role = "push_integer"
+                elif any(d.endswith("String::push_str") for d in calls) and len(ins) == 2 and ins[1].startswith("&") and "str" in ins[1]:
+                    role = "push_raw_str"
+                elif any(d.endswith("String::push") for d in calls) and len(ins) == 2 and ins[1] == "char":
+                    role = "push"
+                elif any("extend_from_within" in d for d in calls):
+                    role = "extend_from_within_range"
+                elif any(d.endswith("String::truncate") for d in calls):
+                    role = "truncate" if len(ins) == 2 else "clear"
+            elif tr.endswith("PushJsonSafeString"):
+                ins = b.d.get("inputs") or []
+                if len(ins) >= 2:
+                    if "JsonEncodedString" in ins[1]:
+                        role = "push_json_safe_string"
+                    elif "JsonEncodedArray" in ins[1]:
+                        role = "push_json_safe_array"
+                    elif len(ins) >= 3:
+                        role = "push_json_safe_log_group_and_timestamp"
+            if role:
+                ALIAS[b.def_] = role
+                # calls through the trait name the trait's item, not the impl's
+                if tr:
+                    ALIAS[tr + "::" + b.name] = role
+        # make the role name what every consumer sees (call terminators carry the callee's name in several places)
+        if ALIAS:
+            for b in self.bodies.values():
+                for blk in b.blocks:
+                    t = blk.get("term")
+                    if t and t.get("k") == "call":
+                        c = t.get("callee") or {}
+                        a = ALIAS.get(c.get("def", "")) or ALIAS.get(c.get("resolved", ""))
+                        if a is not None and c.get("name") != a:
+                            c["orig_name"] = c.get("name")
+                            c["name"] = a
 
     def all_bodies(self, crate=None, lib_only=True):
         for (k, _), b in self.bodies.items():
